@@ -23,6 +23,9 @@ sys.path.insert(0, os.path.join(HERE, 'tools'))
 import try_patch  # noqa: E402
 
 
+STATUS = []
+
+
 def collect(label, prepare, checks, per, seed=1):
     copy = try_patch.make_copy()
     kept = []
@@ -31,6 +34,7 @@ def collect(label, prepare, checks, per, seed=1):
             prepare(copy)
         except (subprocess.CalledProcessError, SystemExit) as exc:
             print('%-24s does not apply to the current tree: %s' % (label, exc), flush=True)
+            STATUS.append({'change': label, 'check': '-', 'exit': None, 'signatures': 0, 'first': 'patch does not apply to the current tree (superseded by a later repair)'})
             return kept
         for pid in checks:
             scratch = tempfile.mkdtemp(prefix='vf-regress-')
@@ -62,6 +66,7 @@ def collect(label, prepare, checks, per, seed=1):
                     kept.append(os.path.relpath(dest, HERE))
                     n += 1
                 print('%-24s %s exit=%d replay files=%d kept=%d' % (label, pid, rc, len(files), n), flush=True)
+                STATUS.append({'change': label, 'check': pid, 'exit': rc, 'signatures': len(fails), 'first': fails[0][:140] if fails else ''})
             finally:
                 shutil.rmtree(scratch, ignore_errors=True)
     finally:
@@ -81,7 +86,11 @@ def main():
         if only and sid not in only:
             continue
         meta = json.load(open(os.path.join(d, 'meta.json')))
-        checks = meta.get('caught_by') or [meta['property']]
+        checks = list(meta.get('caught_by') or [])
+        for x in ((meta.get('after') or {}).get('caught_by_now') or []) + [meta['property']]:
+            x = x.split()[0]
+            if x not in checks and x.startswith('C') and len(x) == 3:
+                checks.append(x)
         patch = os.path.join(d, 'patch-rebased.diff')
         if not os.path.exists(patch):
             patch = os.path.join(d, 'patch.diff')
@@ -101,5 +110,24 @@ def main():
             collect('mutant-' + m['id'], lambda copy, m=m: try_patch.apply_textual(copy, m), m['checks'][:2], 1)
 
 
+def write_status():
+    """seeded/STATUS.md: which check reports which change, as measured by this run"""
+    lines = ['# Seeded changes and own mutants against the current checks', '',
+             'Written by `tools/build_regress.py` (quick tier, VERIF_SEED=1, scratch copy of /repo with the change applied).',
+             '`exit` 1 = the check reports a VIOLATION, 0 = it does not.', '',
+             '| change | check | exit | failure signatures | first |', '|---|---|---|---|---|']
+    for r in STATUS:
+        lines.append('| %s | %s | %s | %d | %s |' % (r['change'], r['check'], r['exit'], r['signatures'], r['first'].replace('|', '\\|')))
+    caught = {r['change'] for r in STATUS if r['exit'] == 1}
+    allc = {r['change'] for r in STATUS}
+    lines += ['', '%d changes, %d reported by at least one of the checks run against them, not reported: %s' % (
+        len(allc), len(caught), ', '.join(sorted(allc - caught)) or 'none')]
+    with open(os.path.join(HERE, 'seeded', 'STATUS.md'), 'w') as f:
+        f.write('\n'.join(lines) + '\n')
+
+
 if __name__ == '__main__':
-    main()
+    try:
+        main()
+    finally:
+        write_status()
